@@ -258,6 +258,25 @@ def gen_session(rng: random.Random, spec, *, p_invalid=0.0, p_query=0.0, p_reset
                 else:
                     events.append([3, k])
                     construct(k)
+            elif c < 0.35 + p_cog and rng.random() < 0.2:
+                # create-or-get, unsubscribe what it returned, create-or-get again with the very same arguments:
+                # the second call must look at the current subscribers
+                k = rng.choice(obs_kinds)
+                for _ in range(2):
+                    cands = [i for i in subs if kinds[i] == k]
+                    events.append([6, k, []])
+                    if cands:
+                        idx = cands[0]
+                    else:
+                        before = len(kinds)
+                        construct(k)
+                        idx = before if len(kinds) > before else None
+                    if idx is None:
+                        break
+                    if _ == 0:
+                        events.append([4, idx])
+                        if idx in subs:
+                            subs.remove(idx)
             elif c < 0.35 + p_cog:
                 k = rng.choice(obs_kinds)
                 if kinds and rng.random() < 0.6:
